@@ -72,7 +72,37 @@ def main(argv):
                 diverged.append({"idx": idx, "kind": kind, "storage": storage, "exc": repr(e)[:300]})
             finally:
                 shutil.rmtree(d, ignore_errors=True)
-    out = {"workloads": done, "discarded": disc, "by_executor": counts, "diverged": diverged, "wall_s": round(time.time() - t0, 1)}
+    # cache histories against REAL multiprocessing.Manager proxies: the policy models must agree with the
+    # implementation exactly as they do under the FakeManager
+    cache_cases = cache_bad = 0
+    try:
+        from engines import c14_caches, common as C
+
+        orig_new_sim = C.new_sim
+
+        def real_manager_sim(*a, **k):
+            sim = orig_new_sim(*a, **k)
+            sim.fake_managers = False
+            return sim
+
+        C.new_sim = real_manager_sim
+        i = 0
+        while cache_cases < max(10, n // 3) and i < 5000:
+            tape = Tape(derive_seed(seed, "fidelity-cache", i))
+            i += 1
+            case = c14_caches.gen_case(tape, "quick")
+            if case["part"] != "A" or not case["config"].get("shared") or case["config"]["cls"] == "simple":
+                continue
+            with runner.quiet():
+                viol, _probes, _sim = c14_caches.run_A(case, Tape(derive_seed(seed, "fidelity-cache-exec", i)))
+            cache_cases += 1
+            if viol:
+                cache_bad += 1
+                diverged.append({"cache_case": i, "violation": [viol[0]["oracle"], viol[0]["kind"]]})
+    finally:
+        C.new_sim = orig_new_sim
+    out = {"workloads": done, "discarded": disc, "by_executor": counts, "cache_histories_on_real_managers": cache_cases,
+           "diverged": diverged, "wall_s": round(time.time() - t0, 1)}
     print("FIDELITY", json.dumps(out))
     return 2 if diverged else 0
 
